@@ -13,6 +13,10 @@ func (g *gen) stream9(name string, n int) bool {
 		g.allocStream(n)
 	case "client-conc":
 		for i := 0; i < n; i++ {
+			if i%3 == 0 { // Close against the default ticker collector while transactions keep timing out
+				g.caseMark("client-real", i)
+				g.emit("CL realclose %d %d %d", []int{1, 8, 50, 200}[g.r.intn(4)], []int{100, 300, 1000}[g.r.intn(3)], g.r.intn(2))
+			}
 			g.caseMark("client-conc", i)
 			g.emit("CL new %d %d %d %d %d %d", 50+g.r.intn(200), g.r.intn(9), g.r.intn(2), g.r.intn(2), b2i(g.r.chance(1, 8)), b2i(g.r.chance(1, 8)))
 			hn := 1
